@@ -1,6 +1,7 @@
 #!/bin/bash
 # Run once after a fresh restore, offline: build tools and warm the Go build cache.
 cd "$(dirname "$0")" || exit 1
+export VERIF=$(pwd)
 . ./lib.sh
 set -e
 build_tools
